@@ -8,7 +8,7 @@ HERE = os.path.dirname(os.path.dirname(os.path.abspath(__file__)))
 
 ALL = ['C%02d' % i for i in range(1, 21)]
 
-CSS_NOTE = ('Bounds: every token forest with <= 3 (thorough 4) tokens per level, any nesting depth by assume-guarantee per routine (a nested block is an event naming a routine that is analysed separately; a frame analysis establishes which transformer fields a routine may leave changed and havocs them in callers). Trusted: the cssparser::Parser contract of mirsym/sc_env.py (token forest, try_parse rollback, parse_nested_block precondition, positions as uninterpreted functions), cssparser tokenizer/serializer, format!/urlencoding as opaque functions; the reference rewrite lib/cssref.py is used only to replay counterexamples.')
+CSS_NOTE = ('Bounds: every token forest with <= 3 (thorough 4) tokens per level, any nesting depth by assume-guarantee per routine (a nested block is an event naming a routine that is analysed separately; a frame analysis establishes which transformer fields a routine may leave changed and havocs them in callers). Trusted: the cssparser::Parser contract of mirsym/sc_env.py (token forest, try_parse rollback, parse_nested_block precondition, positions as uninterpreted functions), cssparser tokenizer/serializer, format!/urlencoding as opaque functions; the reference rewrite lib/cssref.py is used only to replay counterexamples. The start state and the top-level rule loop the routine analysis assumes are established from the MIR of from_css (options reach the transformer unchanged, empty stack / warnings, no unmodelled state) and parse_rules (at_file_start true exactly for the first rule). A routine the executor cannot run is not decided: probe sheets are pushed through the real code (violation if one deviates from the reference rewrite, else inconclusive).')
 
 CHECKS = {
     'C01': dict(
@@ -22,7 +22,7 @@ CHECKS = {
         note='Bounds: parse_number free ASCII <= 12 chars (thorough 24) + structured families reaching the i64 boundaries (0x+18 alnum, 21 '
              'decimal digits, 0+23 octal digits); parse_until_tag_end <= 3 (4) arbitrary Unicode scalars.  Trusted: ParseState cursor contracts '
              '(mirsym/ps_env.py; established on the compiled code by the Kani harnesses of C16), str::parse::<f64> = any f64 or Err, '
-             'CustomAttribute::parse_next consumes >= 1 char.  Findings are replayed natively (dev profile).',
+             'CustomAttribute::parse_next consumes >= 1 char.  Findings are replayed natively (dev profile).  Supporting, not solver-decided: the ~500 templates the J checks enumerate are run through parse/generate/stringify of the real build; a panic is reported as a replayed violation.',
         technique='symbolic execution of MIR with state merging + SMT (z3), native replay',
         design='§4 C01 (M01b, M01e)',
     ),
@@ -88,7 +88,7 @@ CHECKS = {
              'node kinds per branch, wx:for nested <= 2, block, template is/data, include, slot) are compiled; the emitted code is executed symbolically in creation mode '
              'and the recorded protocol-call tree (T/E/B/F/S/J calls, R.* setters) is compared with the reference tree derived from the model by an explicit rule table: '
              'structure, channel and normalised names exactly; every value position, branch condition and template data by z3 for all data.  Generated code that throws at '
-             'creation (undeclared protocol name) is confirmed in node.  What the TypeScript runtime does with the calls is outside.',
+             'creation (undeclared protocol name) is confirmed in node.  The name normalisation kernel escape::dash_to_camel is executed from MIR (engine M) on every string of <= 4 characters against its specification.  What the TypeScript runtime does with the calls is outside.',
         note='Trusted: jssym interpreter and the rule table of checks/c04.py (printed in the evidence); entity decoding limited to a fixed set; dynamic template names outside.',
         technique='SMT translation validation of emitted JavaScript (protocol-call tree vs reference rendering)',
         design='§4 C04',
@@ -231,8 +231,8 @@ CHECKS = {
              'from MIR on strings of <= 2 (thorough: 3) symbolic Unicode scalar values - every code point with every neighbour; a reference decoder of '
              'ECMAScript double-quoted literals (restricted to what every engine and strict mode accept: no legacy octal, no \\u{..}, no raw line terminator) '
              'is evaluated over the symbolic output and z3 decides well-formedness and value == input for all inputs; (b) Expression::parse_lit_str on '
-             'literals of <= 8 symbolic characters against the escape table of template string literals (invalid \\x/\\u must be diagnosed). '
-             'Entity decoding, longer strings and composition over whole templates are outside.',
+             'literals of <= 8 symbolic characters against the escape table of template string literals (invalid \\x/\\u must be diagnosed); (c) entities: make_mapping inserts (name, full replacement text) for an arbitrary table entry, and entities::decode on every ASCII string of 2..10 characters returns char::from_u32(value) for &#x..; / &#..; (None if invalid) and the unmodified table value for names. '
+             'parse_next_entity itself, longer strings and composition over whole templates are outside.',
         note='Trusted: MIR text; String/Chars/push_str/Range/char::from_u32 contracts; ParseState cursor contracts (assume-guarantee with K16a); the two reference '
              'decoders in checks/c12.py. Digit-table lemmas are proved before they are used. If gen_lit_str cannot be executed by M the check only probes critical '
              'strings end to end (violation if one differs, otherwise inconclusive).',
